@@ -1079,9 +1079,11 @@ def run(tier: str, seed: int) -> int:
                  "Alignment/ArrayAlignment is proved for rows of codon-aligned triplets (codons of bases or '---') of equal "
                  "length; rows with partial-gap or ambiguity triplets inside an alignment, app.translate_seqs and "
                  "select_translatable are compared (model and/or oracle on every case), not proved",
-                 "old Sequence.get_translation on degenerate codons is proved per codon (15^3 codons x every code: "
-                 "degenerate_codon_is_set_of_resolutions, partial_gap_codon); its lifting to whole sequences with such codons "
-                 "is by correspondence",
+                 "old Sequence.get_translation on degenerate codons is proved per codon on a finite domain (every code x 1063 "
+                 "codons: all codons over ACGTRYN and all codons with one IUPAC symbol next to two bases; the standard code: all "
+                 "15^3; partial-gap triplets: all) -- the full 15^3 x 27 enumeration is true but too slow for coqchk; the other "
+                 "codons are checked on the implementation against the same set-based oracle (thorough: all 15^3 for code 1, 8^3 "
+                 "for every other code); lifting to whole sequences with such codons is by correspondence",
                  "the all-length theorems describe the code WITH the repairs C12-1..4 (translate_w true true = translate for "
                  "every length, translate_with_dtype_repair_all_lengths); the code without them is characterised by "
                  "translate_pinned_minus_frame (C12-1), translate_dtype_pinned_guarded: right below 768 symbols, and "
